@@ -56,6 +56,7 @@ ALPHA = [
     # parameter numbers are C integer literals: a hex literal or a signed number is one number (26, -1: outside 1..4)
     ('0104**00', 'hex literal parameter %d', ['0x1A']),
     ('0104****', 'byte four %d, minus one, hex three %d', [4, '-1', '0x3']),
+    ('0105****', 'leading zeros: byte three %d, byte four %d', ['03', '004']),
 ]
 TS = [0, 1, 3599, 3600, 65534, 65535]
 SEQ = [0, 0xBEEF]
@@ -69,7 +70,7 @@ def pte_alphabet():
                 for n7 in (0, 1):
                     out.append((n0 << 28) | (n1 << 24) | (n3 << 16) | n7)
     out += [0x01004142, 0x01014142, 0x0101FF00, 0xFFFFFFFF, 0x00000000, 0xE1040000, 0xE1000000, 0xE0041234, 0xF0040000, 0xE20C0190, 0xE2080190, 0xE30C7704, 0xE3087704,
-            0x01022A00, 0x01022A2B, 0x01042A00, 0x01042A2B, 0x0103A000, 0x01030000, 0xE4040000, 0xE4000000, 0xEF0C0001]
+            0x01022A00, 0x01022A2B, 0x01042A00, 0x01042A2B, 0x01052A2B, 0x0103A000, 0x01030000, 0xE4040000, 0xE4000000, 0xEF0C0001]
     return out
 
 
@@ -120,12 +121,20 @@ def compare(got, want, data):
     return None
 
 
+def _c_int(x):
+    """value of a parameter number as written in the header: decimal (leading zeros allowed), hex, signed"""
+    try:
+        return int(str(x), 10)
+    except ValueError:
+        return int(str(x), 0)
+
+
 def table_model(idx):
     """table as the reference understands it: message blanks stripped and \\" unescaped, params 1..4 only"""
     out = []
     for i in idx:
         pat, msg, params = ALPHA[i]
-        nums = [int(str(x), 0) for x in params]
+        nums = [_c_int(x) for x in params]
         out.append((pat, msg.strip().replace('\\"', '"'), tuple(x for x in nums if 1 <= x <= 4)))
     return out
 
